@@ -10,4 +10,4 @@ Extraction "model.ml" conv_anchor unfold drop_prefix default_len
   repeat_step repeat_index cycle_step cycle_index cycle_reversed cycle_init iterate_step infinite_len
   map_step filter_step zip_step
   force obs_len obs_truthy obs_index obs_slice obs_reverse obs_last obs_in obs_unpack sliced_elems
-  handle_run.
+  handle_run zipf_step repeat_slice emap_step efilter_loop collect.
